@@ -68,6 +68,7 @@ var assumptionText = map[string]string{
 	"A-T0":     "the byte-sequence theory T0 (specs/theory/T0.smt2); 18 of its axioms are proved in Lean over List (Fin 256), the others are assumed",
 	"A-SOLVER": "at least one of z3 4.8.12, z3 5.1.0, cvc5 1.0 is sound on each query it answers unsat",
 	"A-SSA":    "go/packages + go/ssa build faithful SSA of /repo's working tree; govc's translation of the SSA subset is correct",
+	"A-CEIL":   "int(math.Ceil(float64(n)*7/8)) equals (7n+7)/8 (integer division) for 0 <= n < 2^22 (float64 is exact there; validated by a bounded enumeration, not proved)",
 	"A-TIME":   "time.Now returns some time value and does not panic",
 	"A-MD5":    "crypto/md5 is a function from byte strings to 16-octet digests",
 	"A-ATOI":   "time.Format(\"0102150405\") yields ten decimal digits that strconv.Atoi parses to a value below 2^32",
@@ -78,7 +79,7 @@ func reg(key string, f intrinsic)       { intrinsics[key] = f }
 func regI(key string, f ifaceIntrinsic) { ifaceIntrinsics[key] = f }
 func one(v Value) []Value               { return []Value{v} }
 func nilErr() *IfaceVal                 { return &IfaceVal{Sym: IntLit(0)} }
-func (x *Exec) lenOut(t *Term) Value { return t }
+func (x *Exec) lenOut(t *Term) Value    { return t }
 
 func (x *Exec) newErr(st *State, name string, eof *Term) *IfaceVal {
 	e := Fresh("e."+name, SInt)
@@ -370,6 +371,19 @@ func init() {
 		x.countAllocN(st, Len(s))
 		return []Value{res, x.condErr(st, "hex", ok, TFalse)}
 	})
+	reg("math.Ceil", func(x *Exec, st *State, fr *Frame, in ssa.Instruction, callee *ssa.Function, args []Value) []Value {
+		t := args[0].(*Term)
+		// the one idiom in scope: math.Ceil(float64(n)*7/8) -> ceil(7n/8), exact for n below 2^22 (validated bounded, A-CEIL)
+		if t.Op == "app" && t.Name == "float./" && isFloatLit(t.Args[1], 8) {
+			m := t.Args[0]
+			if m.Op == "app" && m.Name == "float.*" && isFloatLit(m.Args[1], 7) && m.Args[0].Op == "app" && m.Args[0].Name == "float.of" {
+				x.assume("A-CEIL")
+				return one(App("float.ceil7n8", SInt, m.Args[0].Args[0]))
+			}
+		}
+		x.fail("math.Ceil on an expression other than float64(n)*7/8 at " + x.posOf(in))
+		return one(Fresh("ceil", SInt))
+	})
 	// ---- strings
 	reg("strings.Join", func(x *Exec, st *State, fr *Frame, in ssa.Instruction, callee *ssa.Function, args []Value) []Value {
 		x.assume("A-BUF")
@@ -391,6 +405,10 @@ func init() {
 		}
 		panic(unsupported("strings.Join over a slice of symbolic length"))
 	})
+}
+
+func isFloatLit(t *Term, v int64) bool {
+	return t.Op == "app" && t.Name == "float.lit" && t.Args[0].Op == "int" && t.Args[0].Num.IsInt64() && t.Args[0].Num.Int64() == v
 }
 
 func dynIntBits(t types.Type) (int, bool) {
